@@ -989,6 +989,22 @@ var xDirected = [][]xStep{
 	{{"pre", 0, -1, 0}, {"boot", 0, 0, 0}, {"reg", 0, 2, 2}, {"conn", 1, 0, 0},
 		{"conn", 0, -1, 0}, {"disc", 0, 0, 0}, {"conn", 0, -1, 0}, {"disc", 0, 0, 0},
 		{"disc", 0, 0, 0}, {"conn", 1, 1, 0}, {"conn", 0, -1, 0}},
+	// rescan result exactly reorgSafetyLimit below the tip (limit 4 variant): the
+	// height must NOT be tracked (boundary of the tracking condition added by
+	// af6371e and of dispatchConfDetails' reorgSafeHeight test), otherwise the
+	// request is pruned by the next ConnectTip at that height
+	{{"pre", 1, 0, 0}, {"pre", 0, -1, 0}, {"pre", 0, -1, 0}, {"pre", 0, -1, 0},
+		{"pre", 0, -1, 0}, {"boot", 0, 0, 0}, {"reg", 0, 1, 1}, {"upd", 0, 0, 0},
+		{"disc", 0, 0, 0}, {"conn", 0, -1, 0}, {"conn", 0, -1, 0}},
+	// same with zero registered clients when the rescan completes, then a new client
+	{{"pre", 1, 0, 0}, {"pre", 0, -1, 0}, {"pre", 0, -1, 0}, {"pre", 0, -1, 0},
+		{"pre", 0, -1, 0}, {"boot", 0, 0, 0}, {"reg", 0, 1, 1}, {"cancel", 0, 0, 0},
+		{"upd", 0, 0, 0}, {"disc", 0, 0, 0}, {"conn", 0, -1, 0}, {"reg", 0, 1, 1},
+		{"conn", 0, -1, 0}},
+	{{"pre", 1, 0, 0}, {"pre", 0, -1, 0}, {"pre", 0, -1, 0}, {"pre", 0, -1, 0},
+		{"pre", 0, -1, 0}, {"boot", 0, 0, 0}, {"sreg", 0, 1, 0}, {"scancel", 0, 0, 0},
+		{"supd", 0, 0, 0}, {"disc", 0, 0, 0}, {"conn", 0, -1, 0}, {"sreg", 0, 1, 0},
+		{"conn", 0, -1, 0}},
 }
 
 func xDirectedCase(t *testing.T, hc *channeldb.HeightHintCache, ci int, script []xStep,
